@@ -341,7 +341,7 @@ class OpsMixin:
     # ------------------------------------------------------------------
     # truth / compare with refinement
     # ------------------------------------------------------------------
-    def static_truth(self, v):
+    def static_truth(self, v, use_facts=True):
         v = norm_int(v)
         if v is None or isinstance(v, (bool, int, float, str, bytes, tuple, list, dict, set, frozenset, range)):
             return bool(v)
@@ -350,6 +350,8 @@ class OpsMixin:
                 return True
             if v.hi == 0:
                 return False
+            if not use_facts:
+                return None
             f = self.facts.get(fact_key(v))
             if f is not None:
                 if f[0] == "eq":
@@ -370,6 +372,8 @@ class OpsMixin:
         if isinstance(v, GenVal):
             return True
         if isinstance(v, (SymAny, SymStr, SymDict, SymList, SymBytes, View)):
+            if not use_facts:
+                return None
             k = fact_key(v) or ("obj", id(v))
             f = self.facts.get(k)
             if f is not None and f[0] == "truthy":
